@@ -28,7 +28,9 @@ RULE = ("trees: random task trees of depth <= 3 and fan-out <= 3 (<= 40 tasks), 
         "the innermost nursery's __aexit__ (0..2 already closed nurseries inside), nursery bodies ending in plain statement / "
         "try-except / try-finally / `if c: return K` (c false and c true) / a nested with; both recurse_child_tasks values; "
         "some tasks with 95..150 nested awaits between two frames (above a nursery with children) and ping-pong chains of "
-        "depth 21..24 (chains longer than the runaway-unwrap guard's constant); thorough adds a systematic family (context layouts x end shapes x block modes x child counts). chains: every valid "
+        "depth 21..24 (chains longer than the runaway-unwrap guard's constant); trees extracted while a second thread sits "
+        "inside an extract() of its own with other options (entered at the start of the k-th stack, scheduled through "
+        "stackscope._verif 'glue:enter'); thorough adds a systematic family (context layouts x end shapes x block modes x child counts). chains: every valid "
         "hop string over T (to_thread.run_sync), H (from_thread.run re-entering the host task), S (from_thread.run with "
         "trio_token, system task), R (from_thread.run_sync as the last hop, the sync function calling extract from inside the "
         "host task) up to length M (quick 5, thorough 8) from a task or a foreign thread, parked and observed from "
@@ -118,6 +120,27 @@ def deep_trees():
             "frames": [{"ctxs": []}, {"ctxs": [{"t": "n", "end": "tryfin", "kids": [leaf(), kid]}]}],
             "block": "body", "how": "event", "closed": 0, "pad": pad}}
     yield {"kind": "tree", "rc": True, "root": dict(leaf("sleep"), pad=130)}
+
+
+def interleaved_trees(rng, n_random):
+    """while the tree is being extracted (at the start of its `at`-th stack) a second thread
+    enters a plain extract() of its own with OTHER options and stays inside it until the tree is
+    finished; the tree must come out as if nothing had happened"""
+    def two_level():
+        b = lambda how: {"frames": [{"ctxs": [{"t": "n", "end": "plain", "kids": [leaf(how), leaf("event")]}]}],
+                         "block": "body", "how": "sleep", "closed": 0}
+        return {"frames": [{"ctxs": [{"t": "n", "end": "tryfin", "kids": [b("sleep"), b("event"), leaf()]}]}],
+                "block": "body", "how": "event", "closed": 0}
+    for rc in (True, False):
+        for at in ((1, 2, 3, 5, 8) if rc else (1,)):
+            for wc, orc in ((True, not rc), (False, rc), (False, not rc)):
+                yield {"kind": "tree", "rc": rc, "root": two_level(), "intr": {"at": at, "wc": wc, "rc": orc}}
+    for _ in range(n_random):
+        d = rand_tree(rng, 0)
+        n = _count(d["root"])[0]
+        d["intr"] = {"at": rng.randint(1, max(1, n if d["rc"] else 1)), "wc": rng.random() < 0.6,
+                     "rc": (not d["rc"]) if rng.random() < 0.8 else d["rc"]}
+        yield d
 
 
 def deep_chains():
@@ -288,6 +311,7 @@ def make_inputs(tier, seed):
     yield from specials()
     yield from deep_trees()
     yield from deep_chains()
+    yield from interleaved_trees(rng, 60 if tier == "quick" else 800)
     if tier == "quick":
         for _ in range(1200):
             yield rand_tree(rng)
@@ -430,6 +454,8 @@ def classify(desc, obs):
     if desc["kind"] == "tree":
         n, aexit, ends = _count(desc["root"])
         labs.append("tasks=%s" % ("1" if n == 1 else "2-5" if n <= 5 else "6-15" if n <= 15 else "16+"))
+        if desc.get("intr"):
+            labs.append("second thread inside extract() meanwhile: " + ("interleaved" if obs.get("interleaved") else "not reached"))
         if '"pad"' in __import__("json").dumps(desc):
             labs.append("await chain > 95 links")
         labs.append("parked_in_aexit=%d" % min(aexit, 3))
